@@ -665,9 +665,40 @@ func (g *rgen) keepGroupsAlive(as []attrT, key string) {
 	}
 }
 
+// deep: a spine of n nested groups with a sensitive attribute (and a plain one) at the bottom
+func (g *rgen) deep(n int) attrT {
+	a := g.leaf()
+	a.K = hx.Pick(g.r, sensitiveKeys)
+	b := g.leaf()
+	inner := []attrT{a, b}
+	var top attrT
+	for i := 0; i < n; i++ {
+		top = attrT{IsG: true, K: "d" + strconv.Itoa(i%3), G: inner, Via: g.r.Intn(2)}
+		inner = []attrT{top}
+		if g.r.Chance(1, 3) {
+			inner = append(inner, g.leaf())
+		}
+	}
+	return top
+}
+
 func genRedact(r *hx.Rand, allowLV bool) rcaseT {
 	c := rcaseT{H: hx.Pick(r, []string{"json", "text", "console", "console"})}
 	g := &rgen{r: r, h: c.H, allowLV: allowLV}
+	if r.Chance(1, 15) {
+		// unusually deep: many WithGroup names and/or many enclosing slog.Group values (4..14 in all)
+		ng := r.Range(0, 8)
+		for i := 0; i < ng; i++ {
+			c.Chain = append(c.Chain, opT{IsG: true, G: "w" + strconv.Itoa(i%3)})
+			if r.Chance(1, 4) {
+				c.Chain = append(c.Chain, opT{W: []attrT{g.deep(r.Range(1, 8))}})
+			}
+		}
+		c.Call = []attrT{g.deep(r.Range(4, 10)), g.leaf()}
+		c.Entry = hx.Pick(r, []int{0, 1})
+		c.Level = r.Intn(3)
+		return c
+	}
 	switch r.Intn(6) {
 	case 0:
 		c.User, c.UserKey = "top", "dropme"
@@ -728,6 +759,15 @@ func fixedRedact() []rcaseT {
 			Call: []attrT{pw("secret", "v2x"), {IsG: true, K: "h", G: []attrT{pw("api_key", "v3x"), {IsG: true, K: "i", G: []attrT{pw("authorization", "v4x")}}}}}})
 		// buffered then flushed through a derived logger (K20d)
 		out = append(out, rcaseT{H: h, Buffered: true, Chain: []opT{{W: []attrT{pw("password", "v1x"), pw("k1", "v2x")}}}, Call: []attrT{pw("token", "v3x"), pw("k2", "v4x")}})
+		// ten WithGroup names, then a group value: still redacted at depth 11
+		{
+			deepc := rcaseT{H: h}
+			for i := 0; i < 10; i++ {
+				deepc.Chain = append(deepc.Chain, opT{IsG: true, G: "w"})
+			}
+			deepc.Call = []attrT{{IsG: true, K: "g", G: []attrT{pw("password", "v1x"), pw("user", "v2x")}}}
+			out = append(out, deepc)
+		}
 		// Logger.Error and BatchLogger entry points
 		out = append(out, rcaseT{H: h, Entry: 2, Level: 2, Call: []attrT{pw("authorization", "v1x")}})
 		out = append(out, rcaseT{H: h, Entry: 3, Call: []attrT{pw("api_key", "v1x"), {K: "n", Kind: 1, I: -1000002, Core: "-1000002"}}})
